@@ -281,6 +281,78 @@ def sem_element_ops(ck, fns):
     return done
 
 
+def check_reserve(ck, fns):
+    """reserve grows only through the stored reserve_fn, exactly when the spare capacity is insufficient (shared with C05: any other way of
+    obtaining a buffer in `reserve` allocates in the calling module)."""
+    l0 = Aff.sym("len0")
+    one = Aff.const(1)
+
+    def need(name):
+        fn = fns.get(V + "CVec::<T>::" + name)
+        ck.require(fn is not None, "CVec::" + name)
+        return fn
+    # ---- reserve: grows through the stored function iff spare capacity is insufficient ------------------------------------
+    fn = need("reserve")
+    if fn:
+        body, runs = run_op(fn, {2: "additional"})
+        c0, add = Aff.sym("capacity0"), Aff.sym("additional")
+        ok = len(runs) == 2
+        grow = keep = False
+        for path, ev, guards, fields, sets, px in runs:
+            ics = [b for b in path if body.blocks[b]["t"]["k"] == "call" and body.blocks[b]["t"].get("callee") is None]
+            others = [e for e in ev if not (e[0] == "call" and e[1] == "<indirect>")]
+            if others:
+                ok = False
+            if len(ics) == 1:
+                t = body.blocks[ics[0]]["t"]
+                fo = mir.deepstrip(body.origin_operand(t["f"]))
+                a0, a1 = mir.deepstrip(body.origin_operand(t["args"][0])), mir.deepstrip(body.origin_operand(t["args"][1]))
+                # grows exactly when the spare capacity is insufficient: capacity - len < additional (`<=` only grows earlier)
+                cond = guard_has(guards, "ge0", add - (c0 - l0) - one) or guard_has(guards, "ge0", add - (c0 - l0))
+                grow = fo == ("field", ("arg", 1), "reserve_fn") and a0 == ("arg", 1) and a1 == ("arg", 2) and cond
+            elif not ics:
+                keep = guard_has(guards, "ge0", (c0 - l0) - add) or guard_has(guards, "ge0", (c0 - l0) - add - one)
+            else:
+                ok = False
+        ok = ok and grow and keep
+        ck.ob("R-reserve-through-stored-fn", "cglue/CVec::reserve", ok, "reserve must call its own reserve_fn(self, additional) whenever capacity - len < additional")
+
+
+def check_stored_fn_positions(ck, f):
+    """drop_fn(data, len, capacity): the function stored in the slot rebuilds the Vec from its parameters in that order, and CVec::drop
+    passes its fields in that order (shared with C16: the order is part of the published C contract)."""
+    fns = {x["path"]: x for x in f.fns("cglue-lib") if "/vec.rs" in x["span"]}
+    dp = fns.get("<cglue::vec::CVec<T> as std::ops::Drop>::drop")
+    if ck.require(dp is not None, "Drop for CVec"):
+        body = mir.Body(dp)
+        ic = [(bi, t) for bi, t in body.calls() if t.get("callee") is None]
+        ok = len(ic) == 1
+        if ok:
+            args = [mir.peel_place(body.origin_operand(a)) for a in ic[0][1]["args"]]
+            ok = args == [("field", ("arg", 1), "data"), ("field", ("arg", 1), "len"), ("field", ("arg", 1), "capacity")]
+            if not ok:
+                # through a helper returning the raw parts: decide on the summary
+                ev = sem.Evaluator(fns, {}, inline=lambda p: p in fns)
+                me = ("sym", "self")
+                outs = ev.run(dp, [me])
+                ok = bool(outs) and all(o.kind == "ret" for o in outs)
+                for o in outs:
+                    for e in o.effects:
+                        if e[0] == "icall":
+                            ok = ok and [sem.strip(a) for a in e[2]] == [("fld", me, 0, "data"), ("fld", me, 1, "len"), ("fld", me, 2, "capacity")]
+        ck.ob("R-drop-passes-raw-parts-in-order", "cglue/CVec::drop", ok, "Drop must call drop_fn(data, len, capacity) in that order", sample={"args": ["data", "len", "capacity"]})
+    fn = fns.get(V + "cglue_drop_vec")
+    if ck.require(fn is not None, V + "cglue_drop_vec"):
+        ev = sem.Evaluator(fns, {}, inline=lambda p: p in fns)
+        a1, a2, a3 = ("sym", "data"), ("sym", "len"), ("sym", "capacity")
+        outs = ev.run(fn, [a1, a2, a3])
+        ok = bool(outs) and all(o.kind == "ret" for o in outs)
+        for o in outs:
+            cs = o.calls("Vec::<T>::from_raw_parts")
+            ok = ok and len(cs) == 1 and [sem.strip(a) for a in cs[0][2]] == [a1, a2, a3]
+        ck.ob("R-from-raw-parts-positional", "cglue/" + V + "cglue_drop_vec", ok, "%scglue_drop_vec must pass its (data, len, capacity) parameters to Vec::from_raw_parts in that order" % V)
+
+
 def run(tier):
     ck = report.Check("C11", tier, level="other")
     f = facts.cfg_cglue()
@@ -364,43 +436,10 @@ def run(tier):
         ck.ob("A-remove-summary", "cglue/CVec::remove", ok,
               "remove must check index < len, read data+i, shift (index, len) down by one (src=data+i+1, dst=data+i, count=len-i-1), len = len-1 and return the element read: %s" % detail,
               sample={"op": "remove", "copy": "data+i+1 -> data+i x (len0-i-1)", "len'": "len0 - 1"})
-    # ---- reserve: grows through the stored function iff spare capacity is insufficient ------------------------------------
-    fn = need("reserve")
-    if fn:
-        body, runs = run_op(fn, {2: "additional"})
-        c0, add = Aff.sym("capacity0"), Aff.sym("additional")
-        ok = len(runs) == 2
-        grow = keep = False
-        for path, ev, guards, fields, sets, px in runs:
-            ics = [b for b in path if body.blocks[b]["t"]["k"] == "call" and body.blocks[b]["t"].get("callee") is None]
-            others = [e for e in ev if not (e[0] == "call" and e[1] == "<indirect>")]
-            if others:
-                ok = False
-            if len(ics) == 1:
-                t = body.blocks[ics[0]]["t"]
-                fo = mir.deepstrip(body.origin_operand(t["f"]))
-                a0, a1 = mir.deepstrip(body.origin_operand(t["args"][0])), mir.deepstrip(body.origin_operand(t["args"][1]))
-                # grows exactly when the spare capacity is insufficient: capacity - len < additional (`<=` only grows earlier)
-                cond = guard_has(guards, "ge0", add - (c0 - l0) - one) or guard_has(guards, "ge0", add - (c0 - l0))
-                grow = fo == ("field", ("arg", 1), "reserve_fn") and a0 == ("arg", 1) and a1 == ("arg", 2) and cond
-            elif not ics:
-                keep = guard_has(guards, "ge0", (c0 - l0) - add) or guard_has(guards, "ge0", (c0 - l0) - add - one)
-            else:
-                ok = False
-        ok = ok and grow and keep
-        ck.ob("R-reserve-through-stored-fn", "cglue/CVec::reserve", ok, "reserve must call its own reserve_fn(self, additional) whenever capacity - len < additional")
+    check_reserve(ck, fns)
     # ---- stored functions: raw parts in order ------------------------------------------------------------------------------------
-    dp = fns.get("<cglue::vec::CVec<T> as std::ops::Drop>::drop")
-    if ck.require(dp is not None, "Drop for CVec"):
-        body = mir.Body(dp)
-        ic = [(bi, t) for bi, t in body.calls() if t.get("callee") is None]
-        ok = len(ic) == 1
-        if ok:
-            t = ic[0][1]
-            args = [mir.deepstrip(body.origin_operand(a)) for a in t["args"]]
-            ok = args == [("field", ("arg", 1), "data"), ("field", ("arg", 1), "len"), ("field", ("arg", 1), "capacity")]
-        ck.ob("R-drop-passes-raw-parts-in-order", "cglue/CVec::drop", ok, "Drop must call drop_fn(data, len, capacity) in that order", sample={"args": ["data", "len", "capacity"]})
-    for name, kind in ((V + "cglue_drop_vec", "direct"), ("<cglue::vec::TempVec<'a, T> as std::convert::From<&'a mut cglue::vec::CVec<T>>>::from", "fields")):
+    check_stored_fn_positions(ck, f)
+    for name, kind in (("<cglue::vec::TempVec<'a, T> as std::convert::From<&'a mut cglue::vec::CVec<T>>>::from", "fields"),):
         fn = fns.get(name)
         if ck.require(fn is not None, name):
             body = mir.Body(fn)
